@@ -155,6 +155,29 @@ type Scenario struct {
 	Prop           string       `json:"prop,omitempty"`             // property the generic clauses are attributed to (default C06, C14 with a closer)
 	MetaCloseFails bool         `json:"meta_close_fails,omitempty"` // the metadata store's Close returns an error
 	Closer         bool         `json:"closer"`                     // some thread calls Close: ErrClosed answers are legal once Close was invoked
+	// FailDecodeOnce: the WAL runs with an external codec (the default encoding under ID 70001) whose Decode
+	// fails once for this index; the setup ends with one GetLog of it (which fails) before the threads start.
+	FailDecodeOnce uint64 `json:"fail_decode_once,omitempty"`
+}
+
+// FlakyCodec is the default binary encoding under an external codec ID; Decode fails once for FailIdx.
+type FlakyCodec struct {
+	wal.BinaryCodec
+	FailIdx uint64
+	failed  bool
+}
+
+func (c *FlakyCodec) ID() uint64 { return 70001 }
+
+func (c *FlakyCodec) Decode(b []byte, l *raft.Log) error {
+	if err := c.BinaryCodec.Decode(b, l); err != nil {
+		return err
+	}
+	if l.Index == c.FailIdx && !c.failed {
+		c.failed = true
+		return errors.New("injected decode failure")
+	}
+	return nil
 }
 
 type Event struct {
@@ -192,6 +215,9 @@ func RunScenario(sc *Scenario, ch vsched.Chooser, trace bool) (*vsched.Result, *
 	sys := Mount(simdisk.NewState(), sc.Cfg)
 	defer sys.Unmount()
 	sys.MetaCloseErr = sc.MetaCloseFails
+	if sc.FailDecodeOnce > 0 {
+		sys.Codec = &FlakyCodec{FailIdx: sc.FailDecodeOnce}
+	}
 	rec.Disk = sys.Disk
 	simdisk.Clock = vsched.Tick
 	defer func() { simdisk.Clock = nil }()
@@ -215,6 +241,14 @@ func RunScenario(sc *Scenario, ch vsched.Chooser, trace bool) (*vsched.Result, *
 		}
 		rec.Setup = m
 		w := sys.W
+		if sc.FailDecodeOnce > 0 {
+			var g raft.Log
+			if err := w.GetLog(sc.FailDecodeOnce, &g); err == nil {
+				rec.PostViol = append(rec.PostViol, Violation{Prop: "INTERNAL", Msg: "setup: the injected decode failure did not surface"})
+				return
+			}
+			vsched.Quiesce()
+		}
 		vsched.SetRecording(true)
 		for ti := range sc.Threads {
 			ti := ti
@@ -254,6 +288,9 @@ func RunScenario(sc *Scenario, ch vsched.Chooser, trace bool) (*vsched.Result, *
 		}
 		// reopen and look
 		sys2 := &Sys{Disk: sys.Disk, Dir: sys.Dir, Cfg: sys.Cfg}
+		if sc.FailDecodeOnce > 0 {
+			sys2.Codec = &FlakyCodec{}
+		}
 		if err := sys2.Open(); err != nil {
 			rec.FinalObs = &Obs{OpenErr: err.Error()}
 			return
@@ -419,9 +456,16 @@ func CheckExecution(sc *Scenario, res *vsched.Result, rec *ExecRecord) []Violati
 	versions := []ver{{m: rec.Setup, inv: -1, ret: -1}}
 	var closeInv int64 = -1
 	var closeRet int64 = -1
+	// several threads may call Close: ErrClosed answers are legal from the earliest invocation on, and
+	// mandatory after the earliest return
 	for _, e := range rec.Events {
-		if e.Op.K == "C" && closeInv < 0 {
-			closeInv, closeRet = e.Inv, e.Ret
+		if e.Op.K == "C" {
+			if closeInv < 0 || e.Inv < closeInv {
+				closeInv = e.Inv
+			}
+			if closeRet < 0 || e.Ret < closeRet {
+				closeRet = e.Ret
+			}
 		}
 	}
 	var failedOps []Op
